@@ -9,6 +9,7 @@
   translators build them through the `ControlFlowGraph` API: `C15.ops_wf`).
 -/
 import FalconProofs.C06.AsmEntry
+import FalconProofs.C06.AsmNoPanic
 
 namespace Falcon.C06Asm
 open Falcon Falcon.CfgEdit Falcon.Assemble Falcon.C15
@@ -151,6 +152,48 @@ theorem asm_lang {tb : List (Nat × BTR)} {manual : List ManualEdge} {fnAddr : N
     cases hmm : merge { st.cfg with entry := some be } with
     | mk c' r => rw [hmm] at hm; simp only at hm; subst hm; rfl
   exact ⟨st, be, bx, hcore, hl, mergeLoop_lang _ hw heq⟩
+
+/-- **discover_closed** — what the work list returns is keyed by distinct addresses and closed: the function address,
+    both ends of every manual edge and every successor of every translation result have a translation result; and
+    every result is the oracle's answer at its address or the made-up result of an empty window. -/
+theorem discover_spec {oracle : Nat → Option (Res BTR)} {manual : List ManualEdge} {fnAddr fuel : Nat}
+    {tb : List (Nat × BTR)} (h : discover oracle manual fnAddr fuel = .ok tb) :
+    (tb.map (·.1)).Nodup ∧ Closed tb manual fnAddr ∧
+    (∀ p ∈ tb, (oracle p.1 = none ∧ p.2 = emptyResult p.1) ∨ oracle p.1 = some (.ok p.2)) := by
+  obtain ⟨h1, h2, h3, h4⟩ := discover_closed h
+  refine ⟨h1, ⟨h2, h3, h4⟩, ?_⟩
+  intro p hp
+  rcases discoverLoop_prov fuel _ [] tb h p hp with h5 | h5
+  · cases h5
+  · exact h5
+
+/-- **asm_no_panic** — after the work list, the assembly never panics: every `block_indices[…]` finds its key (the
+    table is closed), `insert`, the edge insertions, `set_entry` and `merge` do not panic. -/
+theorem asm_no_panic {oracle : Nat → Option (Res BTR)} {manual : List ManualEdge} {fnAddr fuel : Nat}
+    {tb : List (Nat × BTR)} (ho : OracleWF oracle) (h : discover oracle manual fnAddr fuel = .ok tb) :
+    assemble tb manual fnAddr ≠ .panic :=
+  assemble_no_panic (discover_graphsWF ho h) (discover_spec h).2.1
+
+/-- **translate_function_wf** — the whole of `translate_function_extended` (work list + assembly) on an oracle that
+    hands out well-formed instruction graphs: a returned function has a well-formed graph with an existing entry
+    block; when the result at the function address starts with an instruction, the entry is the entry `insert`
+    returned for the instruction graph logged at that instruction's address. -/
+theorem translate_function_wf {oracle : Nat → Option (Res BTR)} {manual : List ManualEdge} {fnAddr fuel : Nat}
+    {f : Function} (ho : OracleWF oracle) (h : translateFunction oracle manual fnAddr fuel = .ok f) :
+    WF f.cfg ∧ (∃ en, f.cfg.entry = some en ∧ f.cfg.hasBlock en = true) ∧
+    ∃ tb, discover oracle manual fnAddr fuel = .ok tb ∧ assemble tb manual fnAddr = .ok f ∧
+      ∀ r g gs, (fnAddr, r) ∈ tb → r.instrs = g :: gs →
+        ∃ st en ex, assembleCore tb manual = .ok st ∧ st.instrIdx.lookup g.addr = some (en, ex) ∧ f.cfg.entry = some en := by
+  unfold translateFunction at h
+  split at h
+  · rename_i tb hd
+    have hg := discover_graphsWF ho hd
+    refine ⟨asm_wf hg h, (asm_no_dangling hg h).2, tb, hd, h, ?_⟩
+    intro r g gs hr hi
+    obtain ⟨st, en, ex, h1, h2, h3, _⟩ := asm_entry hg (discover_spec hd).1 h hr hi
+    exact ⟨st, en, ex, h1, h2, h3⟩
+  · cases h
+  · cases h
 
 /-- non-vacuity: two results, the second shares the instruction at 0x1004 with the first (a branch into the middle
     of a lifted block); the function assembles, 0x1004 is inserted once, the entry is block 0 -/
